@@ -142,7 +142,7 @@ structure State where
   stk : List ((Nat × Nat) × Int)
   /-- balance of the reward denom held by the x/incentives module account -/
   incBal : Int
-  deriving Repr
+  deriving DecidableEq, Repr
 
 def State.init (minAlloc minVP : Int) : State :=
   { minAlloc, minVP, gauges := [], endorsements := [], votes := [], dvp := [], dist := ⟨0, []⟩,
@@ -168,8 +168,8 @@ def State.gauge? (s : State) (g : Nat) : Option Gauge := s.gauges.find? (·.id =
 def State.endorsement? (s : State) (r : Nat) : Option Endorsement := s.endorsements.find? (·.r == r)
 def State.vote? (s : State) (a : Nat) : Option Vote := alookup a s.votes
 
-def State.setGauge (s : State) (g : Gauge) : State :=
-  { s with gauges := s.gauges.map fun x => if x.id = g.id then g else x }
+/-- `setGauge`: replace the stored gauge with id `g.id` -/
+def updGauge (gs : List Gauge) (g : Gauge) : List Gauge := gs.map fun x => if x.id = g.id then g else x
 
 /-! ### keeper/endorsements.go -/
 
@@ -302,7 +302,7 @@ def State.blacklisted (s : State) (a : Nat) : State := { s with blacklist := a :
 /-- `DistributeEndorsementRewards` succeeded: coins leave the module account, the gauge's
     `DistributedCoins` grows; then the claimer is blacklisted -/
 def State.paid (s : State) (a : Nat) (g : Gauge) (amt : Int) : State :=
-  { s with gauges := s.gauges.map (fun x => if x.id = g.id then { g with distributed := g.distributed + amt } else x),
+  { s with gauges := updGauge s.gauges { g with distributed := g.distributed + amt },
            incBal := s.incBal - amt, blacklist := a :: s.blacklist }
 
 /-- the reward computation of `EstimateClaim` and the payment: `power · epochRewards / epochShares`
@@ -373,8 +373,7 @@ def State.epochEnd (s : State) (distr : Bool) : State :=
   (if distr then s.incentivesEpochEnd else s).sponsEpochEnd
 
 def State.funded (s : State) (g : Gauge) (amt : Int) : State :=
-  { s with gauges := s.gauges.map (fun x => if x.id = g.id then { g with coins := g.coins + amt } else x),
-           incBal := s.incBal + amt }
+  { s with gauges := updGauge s.gauges { g with coins := g.coins + amt }, incBal := s.incBal + amt }
 
 /-- `AddToGaugeRewards` on an endorsement gauge (funder's balance is checked by the caller) -/
 def State.fund (s : State) (gid : Nat) (amt : Int) : Except Err State :=
